@@ -366,3 +366,171 @@ func fullRangeIndex(idx ssa.Value, isBound func(v ssa.Value) bool) (bool, string
 	}
 	return false, "the loop is not bounded by `< number of slots`"
 }
+
+// writeRetainsArg: io.Writer's contract — "Write must not retain p". For a Write([]byte) method it
+// follows p (and slices of it) to every use; allowed: len/cap/copy source/append spread source,
+// string conversion, range/index reads, and handing it to another Write/WriteString-like method
+// (which is bound by the same contract). A store of p into memory or passing it to anything else
+// (bytes.NewBuffer(p) adopts the slice as its storage) is reported.
+func writeRetainsArg(c *Ctx, f *ssa.Function) []string {
+	if len(f.Params) < 2 {
+		return nil
+	}
+	p := f.Params[1]
+	var bad []string
+	seen := map[ssa.Value]bool{}
+	var follow func(v ssa.Value)
+	follow = func(v ssa.Value) {
+		if seen[v] {
+			return
+		}
+		seen[v] = true
+		for _, r := range *v.Referrers() {
+			switch x := r.(type) {
+			case *ssa.Slice:
+				follow(x)
+			case *ssa.Phi:
+				follow(x)
+			case *ssa.ChangeType:
+				follow(x)
+			case *ssa.Convert:
+				// string(p) copies
+			case *ssa.IndexAddr, *ssa.Index, *ssa.Range, *ssa.DebugRef:
+			case *ssa.Store:
+				if x.Val == v {
+					if _, local := x.Addr.(*ssa.Alloc); local {
+						// spilled to a local variable: follow its loads
+						for _, lr := range *x.Addr.(*ssa.Alloc).Referrers() {
+							if u, ok := lr.(*ssa.UnOp); ok {
+								follow(u)
+							}
+						}
+						continue
+					}
+					bad = append(bad, c.P.Pos(x.Pos())+": p is stored into memory that outlives the call")
+				}
+			case *ssa.MakeInterface, *ssa.MakeClosure:
+				bad = append(bad, c.P.Pos(r.Pos())+": p escapes into an interface/closure")
+			case ssa.CallInstruction:
+				cc := x.Common()
+				if b, ok := cc.Value.(*ssa.Builtin); ok {
+					switch b.Name() {
+					case "len", "cap":
+						continue
+					case "copy":
+						if len(cc.Args) == 2 && cc.Args[1] == v && cc.Args[0] != v {
+							continue
+						}
+					case "append":
+						// append(dst, p...) copies the bytes of p; append(p, …) may alias p
+						if len(cc.Args) == 2 && cc.Args[1] == v && cc.Args[0] != v {
+							continue
+						}
+					}
+					bad = append(bad, c.P.Pos(x.Pos())+": p used by builtin "+b.Name()+" in a way that may alias it")
+					continue
+				}
+				name := ""
+				if cc.IsInvoke() {
+					name = cc.Method.Name()
+				} else if sc := cc.StaticCallee(); sc != nil {
+					name = sc.Name()
+				}
+				switch name {
+				case "Write", "WriteString", "Sum", "Sum256", "Equal", "Compare", "Contains", "Index", "HasPrefix", "HasSuffix":
+					continue
+				}
+				bad = append(bad, fmt.Sprintf("%s: p is handed to %s, which is not known to copy it", c.P.Pos(x.Pos()), calleeName(cc)))
+			case *ssa.Return:
+				bad = append(bad, c.P.Pos(x.Pos())+": p is returned")
+			}
+		}
+	}
+	follow(p)
+	sort.Strings(bad)
+	return bad
+}
+
+// reachingDefs resolves a value used inside `in` (possibly a closure) to the SSA values that define
+// it: through closure bindings, and through loads of local cells to the values stored there.
+func reachingDefs(v ssa.Value, in *ssa.Function, d int) []ssa.Value {
+	if d > 6 {
+		return []ssa.Value{v}
+	}
+	switch x := v.(type) {
+	case *ssa.FreeVar:
+		par := in.Parent()
+		if par == nil {
+			return []ssa.Value{v}
+		}
+		for i, fv := range in.FreeVars {
+			if fv != x {
+				continue
+			}
+			var out []ssa.Value
+			for _, b := range par.Blocks {
+				for _, ins := range b.Instrs {
+					if mc, ok := ins.(*ssa.MakeClosure); ok && mc.Fn == in && i < len(mc.Bindings) {
+						out = append(out, reachingDefs(mc.Bindings[i], par, d+1)...)
+					}
+				}
+			}
+			if len(out) > 0 {
+				return out
+			}
+		}
+	case *ssa.UnOp:
+		if x.Op != token.MUL {
+			break
+		}
+		cells := reachingDefs(x.X, in, d+1)
+		var out []ssa.Value
+		for _, cell := range cells {
+			a, ok := cell.(*ssa.Alloc)
+			if !ok {
+				return []ssa.Value{v}
+			}
+			for _, r := range *a.Referrers() {
+				if st, ok := r.(*ssa.Store); ok && st.Addr == a {
+					out = append(out, reachingDefs(st.Val, a.Parent(), d+1)...)
+				}
+			}
+		}
+		if len(out) > 0 {
+			return out
+		}
+	case *ssa.Phi:
+		var out []ssa.Value
+		for _, e := range x.Edges {
+			out = append(out, reachingDefs(e, in, d+1)...)
+		}
+		return out
+	case *ssa.ChangeType:
+		return reachingDefs(x.X, in, d+1)
+	case *ssa.MakeInterface:
+		return reachingDefs(x.X, in, d+1)
+	}
+	return []ssa.Value{v}
+}
+
+// describeDef renders a defining value for messages.
+func describeDef(c *Ctx, v ssa.Value) string {
+	switch x := v.(type) {
+	case *ssa.MakeMap:
+		return "make(map) at " + c.P.Pos(x.Pos())
+	case *ssa.Global:
+		return "package variable " + x.Name()
+	case *ssa.Parameter:
+		return "parameter " + x.Name()
+	case *ssa.UnOp:
+		if fa, ok := x.X.(*ssa.FieldAddr); ok {
+			return "field " + fieldNameOf(fa)
+		}
+		if g, ok := x.X.(*ssa.Global); ok {
+			return "package variable " + g.Name()
+		}
+	case *ssa.Call:
+		return "result of " + calleeName(x.Common())
+	}
+	return v.String()
+}
